@@ -209,6 +209,19 @@ func Born(tok Token) {
 	raceDisable()
 	register(tok.t)
 	raceEnable()
+	// a task aborted before it ever ran has no deferred Died yet: end the goroutine here
+	defer func() {
+		if r := recover(); r != nil {
+			if _, ok := r.(abortSignal); ok {
+				raceDisable()
+				tok.t.state.Store(stDone)
+				K.runDec()
+				raceEnable()
+				runtime.Goexit()
+			}
+			panic(r)
+		}
+	}()
 	park(tok.t, "start", alwaysReady{})
 }
 
